@@ -34,6 +34,7 @@ pub const HARNESSES: &[(&str, fn())] = &[
     ("c16_variation", c16_variation),
     ("c16_generators", c16_generators),
     ("c16_umad", c16_umad),
+    ("c16_umad_empty", c16_umad_empty),
 ];
 
 pub fn c16_selectors() {
@@ -156,13 +157,31 @@ fn p_c16_generators() {
     c16_generators()
 }
 
+/// the empty-parent branch of UMAD (its own code path): coin and new gene both come from the supplied stream
+pub fn c16_umad_empty() {
+    let tape = TapeRng::<6>::symbolic();
+    let u = Umad::new_with_empty_rate(0.5, 1.0, 0.25, NewGene);
+    let g = ArrG { genes: [3; 12], len: 0 };
+    let (mut r1, mut r2) = (tape.restart(), tape.restart());
+    let (Ok(x), Ok(y)) = (u.mutate(g, &mut r1), u.mutate(g, &mut r2));
+    check!(x.len == y.len && x.genes[0] == y.genes[0] && r1.pos == r2.pos, "UMAD on an empty parent is a function of the generator state");
+    check!(x.len == 1 && r1.pos >= 1, "the new gene is drawn from the supplied generator");
+    cover!(x.len == 1, "insertion into the empty parent reachable");
+}
+#[cfg(kani)]
+#[kani::proof]
+#[kani::unwind(8)]
+fn p_c16_umad_empty() {
+    c16_umad_empty()
+}
+
 pub fn c16_umad() {
     let tape = TapeRng::<6>::symbolic();
     let u = Umad::new(0.5, 0.25, NewGene);
     let g = ArrG { genes: [3; 12], len: 1 };
     let (mut r1, mut r2) = (tape.restart(), tape.restart());
     let (Ok(x), Ok(y)) = (u.mutate(g, &mut r1), u.mutate(g, &mut r2));
-    check!(x.len == y.len && x.genes == y.genes && r1.pos == r2.pos, "UMAD is a function of the genome and the generator state");
+    check!(x.len == y.len && x.genes[0] == y.genes[0] && x.genes[1] == y.genes[1] && r1.pos == r2.pos, "UMAD is a function of the genome and the generator state");
     cover!(x.len == 2, "insertion reachable");
 }
 #[cfg(kani)]
